@@ -48,17 +48,17 @@ type vfObj struct {
 	kind string // get | put | open | list
 	ctx  context.Context
 
-	closes         atomic.Int32
-	transferErrs   atomic.Int32
-	afterClose     atomic.Int32 // ReadAt/WriteAt/ListAt calls that started after Close was invoked
-	inflight       atomic.Int32
-	maxInflight    atomic.Int32
+	closes          atomic.Int32
+	transferErrs    atomic.Int32
+	afterClose      atomic.Int32 // ReadAt/WriteAt/ListAt calls that started after Close was invoked
+	inflight        atomic.Int32
+	maxInflight     atomic.Int32
 	inflightAtClose atomic.Int32 // in-flight ReadAt/WriteAt observed when Close was invoked (max)
-	closedBeforeTE atomic.Int32 // TransferError delivered after Close
-	closed         atomic.Bool
-	ctxDoneAtClose atomic.Bool
-	reads, writes  atomic.Int32
-	list           []os.FileInfo
+	closedBeforeTE  atomic.Int32 // TransferError delivered after Close
+	closed          atomic.Bool
+	ctxDoneAtClose  atomic.Bool
+	reads, writes   atomic.Int32
+	list            []os.FileInfo
 }
 
 type vfStore struct {
